@@ -50,15 +50,18 @@ pub enum Target {
 pub enum Op {
     /// `foreign_signer`: also list this account (index modulo the number of accounts) in `signers`
     Create { exec: u8, by: u8, target: Target, accounts: Vec<AcctSpec>, data: Vec<u8>, len_skew: i8, extra_remaining: u8, junk_signer_index: bool, foreign_signer: Option<u8> },
-    Approve { buf: u16, by: u8, other_role: bool },
+    /// `foreign`: pass the ADMIN executor of a second store (same roles granted there) instead
+    Approve { buf: u16, by: u8, other_role: bool, foreign: bool },
     ApproveMany { bufs: Vec<u16>, by: u8 },
     Revoke { who: u8, role: u8, bypass_by: Option<u8> },
     Grant { who: u8, role: u8 },
-    IncreaseDelay { delta: u32, by: u8 },
+    /// `foreign`: pass the timelock config of a second store together with this store
+    IncreaseDelay { delta: u32, by: u8, foreign: bool },
     Cancel { buf: u16, by: u8 },
     CancelMany { bufs: Vec<u16>, by: u8 },
     /// optionally move the clock to `approved_at + delay + at` first (never backwards)
-    Execute { buf: u16, by: u8, at: Option<i8>, wrong_executor: bool, prefer_approved: bool },
+    /// `foreign_config`: pass the timelock config of a second store (delay 0) together with this store
+    Execute { buf: u16, by: u8, at: Option<i8>, wrong_executor: bool, prefer_approved: bool, foreign_config: bool },
     Advance { dt: u32 },
 }
 
@@ -144,14 +147,14 @@ fn op() -> impl Strategy<Value = Op> {
     ];
     prop_oneof![
         4 => create_op(),
-        6 => (any::<u16>(), approver_by(), prop_oneof![7 => Just(false), 1 => Just(true)]).prop_map(|(buf, by, other_role)| Op::Approve { buf, by, other_role }),
+        6 => (any::<u16>(), approver_by(), prop_oneof![7 => Just(false), 1 => Just(true)], prop_oneof![15 => Just(false), 1 => Just(true)]).prop_map(|(buf, by, other_role, foreign)| Op::Approve { buf, by, other_role, foreign }),
         2 => (proptest::collection::vec(any::<u16>(), 0..4), approver_by()).prop_map(|(bufs, by)| Op::ApproveMany { bufs, by }),
         3 => (revoke_target(), 0u8..2, prop_oneof![2 => Just(None), 1 => approver_by().prop_map(Some)]).prop_map(|(who, role, bypass_by)| Op::Revoke { who, role, bypass_by }),
         2 => (revoke_target(), 0u8..2).prop_map(|(who, role)| Op::Grant { who, role }),
-        2 => (prop_oneof![1 => Just(0u32), 6 => 1u32..=5, 3 => 1u32..=4000, 1 => (u32::MAX - 5000)..=u32::MAX], admin_by()).prop_map(|(delta, by)| Op::IncreaseDelay { delta, by }),
+        2 => (prop_oneof![1 => Just(0u32), 6 => 1u32..=5, 3 => 1u32..=4000, 1 => (u32::MAX - 5000)..=u32::MAX], admin_by(), prop_oneof![7 => Just(false), 1 => Just(true)]).prop_map(|(delta, by, foreign)| Op::IncreaseDelay { delta, by, foreign }),
         1 => (any::<u16>(), admin_by()).prop_map(|(buf, by)| Op::Cancel { buf, by }),
         2 => (proptest::collection::vec(any::<u16>(), 0..4), admin_by()).prop_map(|(bufs, by)| Op::CancelMany { bufs, by }),
-        12 => (any::<u16>(), keeper_by(), at, prop_oneof![12 => Just(false), 1 => Just(true)], prop_oneof![3 => Just(true), 1 => Just(false)]).prop_map(|(buf, by, at, wrong_executor, prefer_approved)| Op::Execute { buf, by, at, wrong_executor, prefer_approved }),
+        12 => (any::<u16>(), keeper_by(), at, prop_oneof![12 => Just(false), 1 => Just(true)], prop_oneof![3 => Just(true), 1 => Just(false)], prop_oneof![9 => Just(false), 1 => Just(true)]).prop_map(|(buf, by, at, wrong_executor, prefer_approved, foreign_config)| Op::Execute { buf, by, at, wrong_executor, prefer_approved, foreign_config }),
         2 => prop_oneof![3 => 0u32..=3, 2 => 0u32..=600, 1 => 0u32..=100_000].prop_map(|dt| Op::Advance { dt }),
     ]
 }
@@ -182,6 +185,9 @@ struct World {
     config: Pubkey,
     executors: [Pubkey; 2],
     wallets: [Pubkey; 2],
+    /// timelock config (delay 0) and ADMIN executor of a second store in which user 0 holds the same roles
+    foreign_config: Pubkey,
+    foreign_executor: Pubkey,
 }
 
 fn store_ix(accounts: Vec<AccountMeta>, data: Vec<u8>) -> Instruction {
@@ -253,7 +259,43 @@ fn setup(delay: u32, roles: &mut BTreeSet<(usize, String)>) -> Result<World, Str
         gmsol_timelock::instruction::InitializeConfig { delay }.data(),
     ))
     .map_err(|e| format!("setup: timelock initialize_config failed: {e:?}"))?;
-    Ok(World { vm, store, config, executors, wallets })
+    // a second store with its own ADMIN executor and a timelock config with delay 0
+    let (store2, _) = Pubkey::find_program_address(&[b"data_store", &gmsol_utils::to_seed("other")], &gmsol_store::ID);
+    vm.process(&store_ix(
+        gmsol_store::accounts::Initialize { payer: admin, authority: None, receiver: None, holding: None, store: store2, system_program: system_program::ID }.to_account_metas(None),
+        gmsol_store::instruction::Initialize { key: "other".to_string() }.data(),
+    ))
+    .map_err(|e| format!("setup: second store initialize failed: {e:?}"))?;
+    for r in &all_roles {
+        vm.process(&store_ix(gmsol_store::accounts::EnableRole { authority: admin, store: store2 }.to_account_metas(None), gmsol_store::instruction::EnableRole { role: r.clone() }.data()))
+            .map_err(|e| format!("setup: second store enable_role {r} failed: {e:?}"))?;
+        // every user of the world holds every role in the second store: only the store binding of the
+        // accounts can stop a mixed call
+        for u in 0..USERS {
+            vm.process(&store_ix(gmsol_store::accounts::GrantRole { authority: admin, store: store2 }.to_account_metas(None), gmsol_store::instruction::GrantRole { user: user(u), role: r.clone() }.data()))
+                .map_err(|e| format!("setup: second store grant_role {r} failed: {e:?}"))?;
+        }
+    }
+    let foreign_executor = executor_pda(&store2, EXEC_ROLES[0])?;
+    let (wallet2, _) = Pubkey::find_program_address(&[b"wallet", foreign_executor.as_ref()], &gmsol_timelock::ID);
+    vm.process(&tl_ix(
+        gmsol_timelock::accounts::InitializeExecutor { payer: user(6), store: store2, executor: foreign_executor, wallet: wallet2, system_program: system_program::ID }.to_account_metas(None),
+        gmsol_timelock::instruction::InitializeExecutor { role: EXEC_ROLES[0].to_string() }.data(),
+    ))
+    .map_err(|e| format!("setup: second store initialize_executor failed: {e:?}"))?;
+    vm.process(&store_ix(
+        gmsol_store::accounts::TransferStoreAuthority { authority: admin, store: store2, next_authority: wallet2 }.to_account_metas(None),
+        gmsol_store::instruction::TransferStoreAuthority {}.data(),
+    ))
+    .map_err(|e| format!("setup: second store transfer_store_authority failed: {e:?}"))?;
+    let (foreign_config, _) = Pubkey::find_program_address(&[b"timelock_config", store2.as_ref()], &gmsol_timelock::ID);
+    vm.process(&tl_ix(
+        gmsol_timelock::accounts::InitializeConfig { authority: admin, store: store2, timelock_config: foreign_config, executor: foreign_executor, wallet: wallet2, store_program: gmsol_store::ID, system_program: system_program::ID }
+            .to_account_metas(None),
+        gmsol_timelock::instruction::InitializeConfig { delay: 0 }.data(),
+    ))
+    .map_err(|e| format!("setup: second store initialize_config failed: {e:?}"))?;
+    Ok(World { vm, store, config, executors, wallets, foreign_config, foreign_executor })
 }
 
 // ---------------------------------------------------------------------------------------------
@@ -500,7 +542,7 @@ fn check_inner(c: &Case, rec: &mut Rec) -> Result<(), String> {
                     rec.class_if(n >= 8, "create_many_accounts");
                 }
             }
-            Op::Approve { buf, by, other_role } => {
+            Op::Approve { buf, by, other_role, foreign } => {
                 if m.bufs.is_empty() {
                     continue;
                 }
@@ -509,13 +551,14 @@ fn check_inner(c: &Case, rec: &mut Rec) -> Result<(), String> {
                 let role = if *other_role { 1 - b.exec } else { b.exec };
                 let by = m.resolve(*by, role);
                 let ix = tl_ix(
-                    gmsol_timelock::accounts::ApproveInstruction { authority: user(by), store, executor: w.executors[role], instruction: b.key, store_program: gmsol_store::ID }.to_account_metas(None),
+                    gmsol_timelock::accounts::ApproveInstruction { authority: user(by), store, executor: if *foreign { w.foreign_executor } else { w.executors[role] }, instruction: b.key, store_program: gmsol_store::ID }.to_account_metas(None),
                     gmsol_timelock::instruction::ApproveInstruction { role: EXEC_ROLES[role].to_string() }.data(),
                 );
                 let holder = m.has(by, &tld(role));
-                expect_ok = holder && role == b.exec && b.alive && b.approved.is_none();
+                expect_ok = holder && role == b.exec && b.alive && b.approved.is_none() && !*foreign;
+                rec.class_if(holder && role == b.exec && b.alive && b.approved.is_none() && *foreign, "approve_with_foreign_store_executor_refused");
                 got = w.vm.process(&ix);
-                what = format!("approve_instruction of buffer {bi} (executor {}, alive {}, approved {:?}) by user {by} with role argument {} (holds it: {holder})", EXEC_ROLES[b.exec], b.alive, b.approved, EXEC_ROLES[role]);
+                what = format!("approve_instruction (executor of a second store passed: {foreign}) of buffer {bi} (executor {}, alive {}, approved {:?}) by user {by} with role argument {} (holds it: {holder})", EXEC_ROLES[b.exec], b.alive, b.approved, EXEC_ROLES[role]);
                 rec.class_if(!holder && b.alive && b.approved.is_none() && role == b.exec, "approve_by_non_holder");
                 rec.class_if(holder && b.alive && b.approved.is_some() && role == b.exec, "approve_twice");
                 rec.class_if(holder && b.alive && b.approved.is_none() && role != b.exec, "approve_with_other_executors_role");
@@ -602,16 +645,17 @@ fn check_inner(c: &Case, rec: &mut Rec) -> Result<(), String> {
                     m.roles.insert((who, name));
                 }
             }
-            Op::IncreaseDelay { delta, by } => {
+            Op::IncreaseDelay { delta, by, foreign } => {
                 let by = *by as usize % USERS;
                 let ix = tl_ix(
-                    gmsol_timelock::accounts::IncreaseDelay { authority: user(by), store, timelock_config: w.config, store_program: gmsol_store::ID }.to_account_metas(None),
+                    gmsol_timelock::accounts::IncreaseDelay { authority: user(by), store, timelock_config: if *foreign { w.foreign_config } else { w.config }, store_program: gmsol_store::ID }.to_account_metas(None),
                     gmsol_timelock::instruction::IncreaseDelay { delta: *delta }.data(),
                 );
                 let sum = m.delay as u64 + *delta as u64;
-                expect_ok = m.has(by, TL_ADMIN) && *delta != 0 && sum <= u32::MAX as u64;
+                expect_ok = m.has(by, TL_ADMIN) && *delta != 0 && sum <= u32::MAX as u64 && !*foreign;
+                rec.class_if(m.has(by, TL_ADMIN) && *delta != 0 && *foreign, "increase_delay_on_foreign_config_refused");
                 got = w.vm.process(&ix);
-                what = format!("increase_delay({delta}) by user {by} at delay {}", m.delay);
+                what = format!("increase_delay({delta}) (config of a second store passed: {foreign}) by user {by} at delay {}", m.delay);
                 rec.class_if(m.has(by, TL_ADMIN) && sum > u32::MAX as u64, "delay_overflow_refused");
                 if got.is_ok() {
                     m.delay = sum as u32;
@@ -672,7 +716,7 @@ fn check_inner(c: &Case, rec: &mut Rec) -> Result<(), String> {
                 svm::set_sysvars(sys);
                 continue;
             }
-            Op::Execute { buf, by, at, wrong_executor, prefer_approved } => {
+            Op::Execute { buf, by, at, wrong_executor, prefer_approved, foreign_config } => {
                 if m.bufs.is_empty() {
                     continue;
                 }
@@ -692,7 +736,7 @@ fn check_inner(c: &Case, rec: &mut Rec) -> Result<(), String> {
                 let mut metas = gmsol_timelock::accounts::ExecuteInstruction {
                     authority: user(by),
                     store,
-                    timelock_config: w.config,
+                    timelock_config: if *foreign_config { w.foreign_config } else { w.config },
                     executor: w.executors[exec_passed],
                     wallet: w.wallets[exec_passed],
                     rent_receiver: user(b.creator),
@@ -710,7 +754,11 @@ fn check_inner(c: &Case, rec: &mut Rec) -> Result<(), String> {
                 let holder_now = b.approved.map(|(a, _)| m.has(a, &tld(b.exec))).unwrap_or(false);
                 let boundary = b.approved.map(|(_, t)| t + m.delay as i64);
                 let due = boundary.map(|t| m.now >= t).unwrap_or(false);
-                let gate = keeper && !*wrong_executor && b.alive && b.approved.is_some() && holder_now && due;
+                // a config of another store (delay 0 there) must never stand in for this store's config
+                let own_gate = keeper && !*wrong_executor && b.alive && b.approved.is_some() && holder_now;
+                rec.class_if(own_gate && *foreign_config && !due, "exec_early_with_foreign_config_refused");
+                rec.class_if(own_gate && *foreign_config && due, "exec_due_with_foreign_config_refused");
+                let gate = own_gate && due && !*foreign_config;
                 // outcome of the buffered instruction itself
                 let inner_ok = match &b.target {
                     Target::Probe => true,
@@ -723,10 +771,10 @@ fn check_inner(c: &Case, rec: &mut Rec) -> Result<(), String> {
                 got = w.vm.process(&ix);
                 let calls = svm::take_probe_calls();
                 what = format!(
-                    "execute_instruction of buffer {bi} by user {by} (keeper {keeper}, alive {}, approved {:?}, approver holds role {holder_now}, now {} vs executable at {boundary:?}, delay {}, wrong executor {wrong_executor}, inner instruction would succeed {inner_ok})",
+                    "execute_instruction of buffer {bi} by user {by} (keeper {keeper}, alive {}, approved {:?}, approver holds role {holder_now}, now {} vs executable at {boundary:?}, delay {}, wrong executor {wrong_executor}, config of a second store passed {foreign_config}, inner instruction would succeed {inner_ok})",
                     b.alive, b.approved, m.now, m.delay
                 );
-                let honest = keeper && !*wrong_executor && b.alive;
+                let honest = keeper && !*wrong_executor && b.alive && !*foreign_config;
                 if honest && b.approved.is_some() && inner_ok {
                     let dist = m.now - boundary.unwrap();
                     if holder_now {
@@ -847,8 +895,8 @@ fn gate_without_keeper(b: &MBuf, holder_now: bool, due: bool, wrong_executor: bo
 }
 
 pub fn run_c36(ctx: &mut Ctx) {
-    ctx.rule("cases = initial delay (0, tiny, up to 1e6 s) and 5..22 operations on a world built with the real store / timelock instructions (store initialize, enable/grant roles, initialize_executor ADMIN and MARKET_KEEPER, transfer_store_authority + initialize_config): create_instruction_buffer (target = probe program, an undeployed program, or the real store revoke_role / grant_role signed by the executor wallet; 0..12 accounts from a pool incl. both executor wallets, the creator, the store, co-signing users, duplicates; data <= 300 bytes; `signers` listing the wallet, sometimes a foreign account or an out-of-range index; wrong data_len; extra remaining accounts), approve_instruction(s) by holders / non-holders / holders of the other executor's role, store revoke_role / grant_role of the timelocked roles and the timelock bypass revoke_role, increase_delay (0, small, overflowing), cancel_instruction(s), execute_instruction optionally after moving the clock to approved_at + delay + {-1,0,+1,..} (also with the other executor passed), plain clock advances. Oracle = reference state machine: every operation is accepted exactly when the model accepts it (execute: caller is keeper, buffer pending, approved, approver holds __TLD_<role> now, now >= approved_at + current delay, inner instruction succeeds); approval once; delay never decreases; executed / cancelled buffers are gone and refuse everything; the probe receives exactly the buffered program id, metas (signer only on the executor wallet, writable as buffered) and data; refused operations leave every account byte-identical; after every step all buffers, the delay and the timelocked role memberships equal the model. Non-trivial = an honest execute attempt within +-1 s of approved_at + delay, or after the approver lost the role");
-    ctx.assume("svm-lite is not the Solana runtime (no compute / stack limits); the store authority (the ADMIN executor wallet PDA) signs direct store grant/revoke instructions at top level, in production those go through the timelock itself (also generated: Target::StoreRevoke/StoreGrant) or its bypass revoke_role; role disable/enable and a cluster restart are not generated");
+    ctx.rule("cases = initial delay (0, tiny, up to 1e6 s) and 5..22 operations on a world built with the real store / timelock instructions (store initialize, enable/grant roles, initialize_executor ADMIN and MARKET_KEEPER, transfer_store_authority + initialize_config): create_instruction_buffer (target = probe program, an undeployed program, or the real store revoke_role / grant_role signed by the executor wallet; 0..12 accounts from a pool incl. both executor wallets, the creator, the store, co-signing users, duplicates; data <= 300 bytes; `signers` listing the wallet, sometimes a foreign account or an out-of-range index; wrong data_len; extra remaining accounts), approve_instruction(s) by holders / non-holders / holders of the other executor's role, store revoke_role / grant_role of the timelocked roles and the timelock bypass revoke_role, increase_delay (0, small, overflowing), cancel_instruction(s), execute_instruction optionally after moving the clock to approved_at + delay + {-1,0,+1,..} (also with the other executor passed, or with the timelock config of a second store whose delay is 0), approve / increase_delay also with the executor / config of that second store (every user holds every role there, so only the accounts' store binding can refuse the mixed call), plain clock advances. Oracle = reference state machine: every operation is accepted exactly when the model accepts it (execute: caller is keeper, buffer pending, approved, approver holds __TLD_<role> now, now >= approved_at + current delay, inner instruction succeeds); approval once; delay never decreases; executed / cancelled buffers are gone and refuse everything; the probe receives exactly the buffered program id, metas (signer only on the executor wallet, writable as buffered) and data; refused operations leave every account byte-identical; after every step all buffers, the delay and the timelocked role memberships equal the model. Non-trivial = an honest execute attempt within +-1 s of approved_at + delay, or after the approver lost the role");
+    ctx.assume("the harness builds gmsol-store with its `multi-store` feature so that the second store can be created by the real initialize instruction; svm-lite is not the Solana runtime (no compute / stack limits); the store authority (the ADMIN executor wallet PDA) signs direct store grant/revoke instructions at top level, in production those go through the timelock itself (also generated: Target::StoreRevoke/StoreGrant) or its bypass revoke_role; role disable/enable and a cluster restart are not generated");
     let n = ctx.cases(3_000, 150_000);
     ctx.search("history", n, case, check);
     for (class, min) in [
@@ -875,6 +923,10 @@ pub fn run_c36(ctx: &mut Ctx) {
         ("exec_store_instruction_ok", 20),
         ("exec_blocked_by_increased_delay", 15),
         ("delay_overflow_refused", 20),
+        ("exec_early_with_foreign_config_refused", 15),
+        ("exec_due_with_foreign_config_refused", 30),
+        ("increase_delay_on_foreign_config_refused", 40),
+        ("approve_with_foreign_store_executor_refused", 25),
     ] {
         ctx.floor(&format!("history:{class}"), min);
     }
